@@ -28,7 +28,9 @@ ASSUMPTIONS = [
     "a measure is compared only where both objects return a value or both "
     "raise the same exception type",
     "spectral measures (eigenvector centralities, synchronizability) only on "
-    "connected undirected graphs with >= 3 nodes, tolerance 1e-6",
+    "connected undirected graphs with >= 3 nodes, tolerance 1e-6; Newman / "
+    "Arenas random-walk betweenness only on undirected graphs (defined via "
+    "undirected component sub-networks)",
     "results are classified by shape: length-N vectors permute, N x N "
     "matrices permute on both axes, everything else is global (frequency "
     "distributions / histograms are listed explicitly as global)",
@@ -201,6 +203,10 @@ def oracle_network(case, rec):
     for name in names:
         if name in SPECTRAL and not connected:
             continue
+        if directed and ("newman" in name or "arenas" in name):
+            # random-walk betweenness is defined on undirected graphs and
+            # the implementation works on undirected component sub-networks
+            continue
         if not heavy and ("newman" in name or "arenas" in name
                           or name == "local_vulnerability"):
             continue
@@ -260,6 +266,18 @@ def oracle_network(case, rec):
 
 # ---------------------------------------------------- InteractingNetworks
 
+# "So far, most methods only give meaningful results for undirected
+# networks!" (class docstring): on directed input only the methods with an
+# explicit directed branch / pure sub-block extraction are held to the relation
+INTERACTING_DIRECTED_OK = {
+    "number_cross_links", "number_internal_links", "cross_link_density",
+    "internal_link_density", "cross_degree", "cross_indegree",
+    "cross_outdegree", "internal_degree", "internal_indegree",
+    "internal_outdegree", "cross_adjacency", "cross_adjacency_sparse",
+    "internal_adjacency", "cross_path_lengths", "internal_path_lengths",
+    "total_cross_degree", "cross_degree_density"}
+
+
 def interacting_methods():
     from pyunicorn.core import InteractingNetworks
     out = []
@@ -302,14 +320,60 @@ def oracle_interacting(case, rec):
                               node_weights=w, silence_level=3)
     net2 = InteractingNetworks(adjacency=A[p][:, p], directed=g["directed"],
                                node_weights=w[p], silence_level=3)
-    m1 = [int(inv[u]) for u in l1]
-    m2 = [int(inv[u]) for u in l2]
+    # the relabelled node lists are given in a different order (sorted by the
+    # new numbers): listing order must not matter either
+    m1 = sorted(int(inv[u]) for u in l1)
+    m2 = sorted(int(inv[u]) for u in l2)
+    o1 = [l1.index(int(p[v])) for v in m1]   # position in l1 of m1[i]
+    o2 = [l2.index(int(p[v])) for v in m2]
+    if o1 != list(range(len(o1))) or o2 != list(range(len(o2))):
+        rec.label("list_order_changed")
     for name, nargs in interacting_methods():
+        if g["directed"] and name not in INTERACTING_DIRECTED_OK:
+            continue
         aa = (l1, l2) if nargs == 2 else (l1,)
         bb = (m1, m2) if nargs == 2 else (m1,)
         sfx = "_dir" if g["directed"] else ""
-        both(rec, name + sfx, name, getattr(net, name), getattr(net2, name),
-             p, n, 1e-9, aa, bb)
+        try:
+            a = getattr(net, name)(*aa)
+            ea = None
+        except Exception as e:  # pylint: disable=broad-except
+            ea = e
+        try:
+            b = getattr(net2, name)(*bb)
+            eb = None
+        except Exception as e:  # pylint: disable=broad-except
+            eb = e
+        if ea is not None or eb is not None:
+            if type(ea) is not type(eb):
+                rec.fail(name + sfx + "_raises_differ",
+                         "original: %r relabelled: %r" % (ea, eb))
+            continue
+        a = _dense(a)
+        b = _dense(b)
+        try:
+            aa_ = np.asarray(a, dtype=float)
+            bb_ = np.asarray(b, dtype=float)
+        except (TypeError, ValueError):
+            continue
+        k1, k2 = len(l1), len(l2)
+        if aa_.ndim == 1 and aa_.shape[0] == n:
+            exp = aa_[p]
+        elif aa_.ndim == 2 and aa_.shape == (n, n):
+            exp = aa_[p][:, p]
+        elif aa_.ndim == 1 and aa_.shape[0] == k1:
+            exp = aa_[o1]
+        elif aa_.ndim == 2 and aa_.shape == (k1, k1) and nargs == 1:
+            exp = aa_[o1][:, o1]
+        elif aa_.ndim == 2 and aa_.shape == (k1, k2):
+            exp = aa_[o1][:, o2]
+        else:
+            exp = aa_
+        if not allclose(bb_, exp, rtol=1e-9, atol=1e-12):
+            rec.fail(name + sfx, "maxdiff=%s relabelled=%s expected=%s" % (
+                maxdiff(bb_, exp),
+                np.array2string(bb_.ravel()[:8], precision=6),
+                np.array2string(np.asarray(exp).ravel()[:8], precision=6)))
 
 
 # --------------------------------------------------- Geo / Spatial / Res
